@@ -13,6 +13,12 @@ def base():
     global _BASE
     if _BASE is None:
         cand = os.environ.get("VERIF_SCRATCH") or "/dev/shm/vsim"
+        # one fixed-width namespace per check invocation, so that concurrent
+        # invocations (a background thorough run, a quick run) never share a
+        # directory and path lengths stay constant
+        ns = os.environ.get("VERIF_SANDBOX_NS")
+        if ns:
+            cand = os.path.join(cand, ns)
         try:
             os.makedirs(cand, exist_ok=True)
             probe = os.path.join(cand, f".probe{os.getpid()}")
@@ -38,6 +44,12 @@ def make(prop, tier, run_seed, tag=""):
 
 def remove(path):
     shutil.rmtree(path, ignore_errors=True)
+
+
+def remove_namespace():
+    ns = os.environ.get("VERIF_SANDBOX_NS")
+    if ns and _BASE and _BASE.endswith(ns):
+        shutil.rmtree(_BASE, ignore_errors=True)
 
 
 def snapshot(root):
